@@ -140,6 +140,24 @@ func freeCollectorBusy() bool {
 	return false
 }
 
+// harnessLock reports whether the mutex a goroutine waits for was requested by the harness itself (the hook
+// function takes the scheduler's mutex, the metrics callbacks take theirs): such a wait lasts a few instructions
+// and says nothing about the locks of the library.
+func harnessLock(stack string) bool {
+	lines := strings.Split(stack, "\n")
+	for i := 1; i < len(lines); i++ {
+		f := lines[i]
+		if strings.HasPrefix(f, "\t") || f == "" {
+			continue // file:line of the frame above
+		}
+		if strings.HasPrefix(f, "sync.") || strings.HasPrefix(f, "internal/") || strings.HasPrefix(f, "runtime.") {
+			continue
+		}
+		return strings.Contains(f, "/harness.") || strings.HasPrefix(f, "harness.")
+	}
+	return false
+}
+
 func isMutexWait(reason string) bool {
 	return strings.HasPrefix(reason, "sync.Mutex.Lock") || strings.HasPrefix(reason, "semacquire") ||
 		strings.HasPrefix(reason, "sync.RWMutex")
@@ -238,6 +256,11 @@ func (s *scheduler) settle(a *schedActor) []map[string]any {
 		if a == s.gc && (gi.reason == "" || strings.HasPrefix(gi.reason, "select") || strings.HasPrefix(gi.reason, "sleep")) {
 			break // the collector finished its pass and waits for the next trigger (or exited: DB.Stop)
 		}
+		if isMutexWait(gi.reason) && harnessLock(gi.stack) && time.Now().Before(deadline) {
+			// waiting for a mutex of the harness (taken inside a hook or a metrics callback): not settled yet
+			time.Sleep(20 * time.Microsecond)
+			continue
+		}
 		if isMutexWait(gi.reason) && s.gc == nil && freeCollectorBusy() && time.Now().Before(deadline) {
 			// the collector is not an actor of this script and is in the middle of a pass (it holds a table lock
 			// for a few instructions): the actor is waiting for it, not for a parked actor
@@ -297,7 +320,7 @@ func (s *scheduler) settle(a *schedActor) []map[string]any {
 			}
 			if b.gid != 0 {
 				gi := goroutines()[b.gid]
-				if isMutexWait(gi.reason) {
+				if isMutexWait(gi.reason) && !harnessLock(gi.stack) {
 					break // still blocked
 				}
 				if b == s.gc && (gi.reason == "" || strings.HasPrefix(gi.reason, "select") || strings.HasPrefix(gi.reason, "sleep") || strings.HasPrefix(gi.reason, "chan receive")) {
